@@ -26,8 +26,16 @@ Definition exempt (b tx : list Z) : bool :=
 Definition gate_ok (b tx a : list Z) : bool :=
   negb (pf b 5 <? pf a 5) || exempt b tx || (pf a 4 <? Z.max (pf b 6) (pf a 6)).
 
-Record st := { last : list (key * list Z); pend : option (list Z * list Z) }.
-Definition st0 : st := {| last := []; pend := None |}.
+(** KNOWN FINDING coalesced-behind-ack-only (known_findings.txt): poll_transmit checks the
+    congestion window only when it starts a datagram; ack-eliciting packets of a later space that
+    are coalesced into a datagram begun by a non-ack-eliciting long-header packet (handshake
+    ACKs) are not checked, so bytes in flight can pass the window by less than one datagram.
+    Exempted only when the scenario carries key 902. *)
+Definition known_class (b tx a : list Z) : bool :=
+  Z.testbit (fld tx 9) 0 && (fld tx 6 =? 0) && (pf a 4 <? Z.max (pf b 6) (pf a 6) + pf b 7).
+
+Record st := { last : list (key * list Z); pend : option (list Z * list Z); known_ok : bool }.
+Definition st0 (k : bool) : st := {| last := []; pend := None; known_ok := k |}.
 
 Definition step (s : st) (r : list Z) : option st :=
   if tag r =? 8 then
@@ -36,14 +44,14 @@ Definition step (s : st) (r : list Z) : option st :=
       match pend s with
       | Some (b, tx) =>
           if key_eqb (rkey b) (rkey r) then
-            if gate_ok b tx r then Some {| last := aset (last s) (rkey r) r; pend := None |}
+            if gate_ok b tx r || (known_ok s && known_class b tx r) then Some {| last := aset (last s) (rkey r) r; pend := None; known_ok := known_ok s |}
             else None
-          else Some {| last := aset (last s) (rkey r) r; pend := None |}
-      | None => Some {| last := aset (last s) (rkey r) r; pend := None |}
+          else Some {| last := aset (last s) (rkey r) r; pend := None; known_ok := known_ok s |}
+      | None => Some {| last := aset (last s) (rkey r) r; pend := None; known_ok := known_ok s |}
       end
   else if (tag r =? 1) && (fld r 8 =? 0) then
     match aget (last s) (rkey r) with
-    | Some b => Some {| last := last s; pend := Some (b, r) |}
+    | Some b => Some {| last := last s; pend := Some (b, r); known_ok := known_ok s |}
     | None => None
     end
   else Some s.
@@ -54,7 +62,7 @@ Definition clean_ok (i : ops) (r : list Z) : bool :=
   negb ((param i 900 0 =? 1) && (tag r =? 8)) || (sf r 4 =? 0).
 
 Definition monitor (i : ops) (o : outs) : option Z :=
-  match snd (run_from (fun s r => if clean_ok i r then step s r else None) 0 st0 o) with
+  match snd (run_from (fun s r => if clean_ok i r then step s r else None) 0 (st0 (param i 902 0 =? 1)) o) with
   | Some k => Some k
   | None => None
   end.
